@@ -26,6 +26,15 @@ def cases(tier, seed, shard, nshards):
                                    mem_levels=[0.05, 0.3, 0.6, 0.9, 1.5], npipes=rng.choice([3, 8, 20]))
     if tier == "thorough" and shard in (0, 1):
         yield _sim.regression_case(shard)
+    # scale cases: large in one dimension (one per shard for the first shards; all of them, twice, in the thorough tier)
+    _kinds = ["many-small:naive", "many-small:naive", "crowd:naive"]
+    for _j, _kd in enumerate(_kinds * (1 if tier == "quick" else 2)):
+        if tier == "thorough" or _j == shard:
+            _k, _, _a = _kd.partition(":")
+            yield _sim.scale_case(rng, _k, algo=_a or None)
+    if tier == "thorough":
+        for _k in range(2):
+            yield _sim.long_sim_case(rng, algos=("naive",))
 
 
 def run_case(case, mon):
